@@ -227,7 +227,10 @@ Inductive op :=
 | OSnapExpire (c : N)
     (* a time-out of the status machine fires (syncStateTimeout, 5 minutes): the record of cluster c may be replaced;
        modelled as its removal, at any moment *)
-| OSnapRpc (o : op).
+| OSnapRpc (o : op)
+| ORpcDown (b : list (sentry * bool)).
+    (* an ApplyRaftReqs call that reaches the node while the raft group is not ready (stopped, being re-created, still
+       replaying its log): the handler answers errRaftGroupNotReady, nothing is proposed *)
     (* the grpc handlers NotifyTransferSnap / NotifyApplySnap around o = OXfer / OSnapReq / OSkipReq on a healthy
        single leader: pre-filter on (term, index), then the request, whose proposal is committed and applied before
        the handler returns *)
@@ -269,6 +272,7 @@ Definition with_snaps (nd : node) (m : snapmap) : node :=
 Definition step0 (nd : node) (o : op) : node * res :=
   match o with
   | OSnapRpc _ => (nd, RNone)
+  | ORpcDown _ => (nd, RErr)
   | ODeliver e tsok propok pre =>
       if pre && prefilter (r_synced (n_cur nd)) e then (nd, RSkip)
       else if negb tsok then (nd, RErr)
